@@ -23,6 +23,7 @@ func chainsUpTo(n int) []string {
 
 func init() {
 	register("c14", Def{
+		Debug: true,
 		Rule: "quick: 28 keys x every chain over {p,r,d,s} of length 1..3 (2,352) + 300 seeded chains of length 4..40; thorough: all chains of length 1..6 " +
 			"(152,880, the property's exhaustive domain) + 3,000 seeded chains up to length 60; each through `crd info key conv`; distinct = distinct (key, chain)",
 		Exhaustive: true,
